@@ -2490,8 +2490,27 @@ def scalarise_records(fn: ast.AST, module_assigns: Dict[str, ast.AST], module_tr
         return 0
     esc = escaping_names(fn) | params_of(fn)
 
+    def dataclass_fields(ctor):
+        """fields of `@dataclass(frozen=True) class _P: a: int; b: str` (no defaults, no methods): only ever read as p.a / p.b"""
+        if not isinstance(ctor, ast.Name) or module_tree is None:
+            return None
+        for cd in module_tree.body:
+            if isinstance(cd, ast.ClassDef) and cd.name == ctor.id and not cd.bases and not cd.keywords and len(cd.decorator_list) == 1:
+                d = cd.decorator_list[0]
+                nm = d.func if isinstance(d, ast.Call) else d
+                if (isinstance(nm, ast.Name) and nm.id == "dataclass") or (isinstance(nm, ast.Attribute) and nm.attr == "dataclass"):
+                    if all(isinstance(x, ast.AnnAssign) and isinstance(x.target, ast.Name) and x.value is None or isinstance(x, ast.Expr) and isinstance(x.value, ast.Constant) or isinstance(x, ast.Pass) for x in cd.body):
+                        return [x.target.id for x in cd.body if isinstance(x, ast.AnnAssign)]
+        return None
+    dataclasses_seen = set()
+
     def fields_of(ctor):
-        return record_fields(ctor, module_assigns, module_tree)
+        r = record_fields(ctor, module_assigns, module_tree)
+        if r is None:
+            r = dataclass_fields(ctor)
+            if r is not None:
+                dataclasses_seen.add(ctor.id)
+        return r
 
     n = 0
     up = parents(fn)
@@ -2517,6 +2536,8 @@ def scalarise_records(fn: ast.AST, module_assigns: Dict[str, ast.AST], module_tr
                                                                and len(x.value.args) == len(fields) and not any(isinstance(a, ast.Starred) for a in x.value.args) for x in defs_t):
             continue
         def unpacked(ld):
+            if st.value.func.id in dataclasses_seen:
+                return False        # a dataclass instance is not a tuple: only field reads are understood
             p = up.get(id(ld))
             if isinstance(p, ast.Call) and isinstance(p.func, ast.Name) and p.func.id == "tuple" and p.args == [ld] and not p.keywords:
                 return True         # tuple(record): the fields in order
